@@ -11,7 +11,7 @@ from __future__ import annotations
 import math
 import sys
 
-from .absint import AExpr, AType, expr_type, Unsupported
+from .absint import AExpr, AType, NPVal, expr_type, Unsupported, rnd
 
 
 class Undefined(Exception):
@@ -61,10 +61,39 @@ def evaluate(e, env):
             return evaluate(v, env)
         if isinstance(v, str):
             if v in NAMED:
-                return NAMED[v]
+                val = NAMED[v]
+                bits = _bits(e)
+                if v == "largest" and bits in (16, 32):
+                    val = {16: 65504.0, 32: 3.4028234663852886e38}[bits]
+                if v == "smallest" and bits in (16, 32):
+                    val = {16: 2.0 ** -14, 32: 2.0 ** -126}[bits]
+                if v == "smallest_subnormal" and bits in (16, 32):
+                    val = {16: 2.0 ** -24, 32: 2.0 ** -149}[bits]
+                if v == "eps" and bits in (16, 32):
+                    val = {16: 2.0 ** -10, 32: 2.0 ** -23}[bits]
+                return rnd(val, bits) if isinstance(val, float) else val
             raise Undefined()
-        return _num(v)
+        if isinstance(v, NPVal):
+            return _num(v.value)
+        return _num(rnd(v, _bits(e)) if isinstance(v, float) else v)
     a = [evaluate(o, env) for o in ops if isinstance(o, AExpr)]
+    r = _evaluate_op(e, k, a)
+    if isinstance(r, float) and k not in ("upcast",):
+        return _num(rnd(r, _bits(e)))
+    if isinstance(r, complex):
+        return _num(rnd(r, _bits(e)))
+    return r
+
+
+def _bits(e):
+    try:
+        t = expr_type(e)
+    except Unsupported:
+        return None
+    return t.bits if t.kind in ("float", "complex") else None
+
+
+def _evaluate_op(e, k, a):
     try:
         if k == "add":
             return _num(a[0] + a[1])
@@ -129,8 +158,7 @@ def evaluate(e, env):
         if k == "upcast":
             return a[0]
         if k == "downcast":
-            t = expr_type(e)
-            return to_grid(a[0], t.bits)
+            return rnd(a[0], expr_type(e).bits)
         if k == "log":
             if a[0] <= 0:
                 raise Undefined()
